@@ -27,15 +27,15 @@ CLAIMED = {
             "negm/dblm/hlvm return the canonical residue (< p); fp_rdcn_low returns c < p with c*R = T mod p for every 2n-digit T < pR, "
             "including the carry-out and final-subtraction branches; fp_mulm/fp_sqrm compose them; equality of canonical elements is equality "
             "of residues.  Proved in Lean for the value-level models of Model/FpAlg (same loops, windows, tables, branches, Montgomery-domain "
-            "conversions and error conditions as the C functions; Props/C02B, 19 theorems): fp_exp_basic / fp_exp_dig / fp_exp_monty / "
+            "conversions and error conditions as the C functions; Props/C02B, 16 theorems): fp_exp_basic / fp_exp_dig / fp_exp_monty / "
             "fp_exp_slide = a^e mod p for every exponent (no primality needed; fp_exp_slide refuses exponents longer than RLC_FP_BITS+1 bits, "
             "never answers wrongly), negative exponents = inverse of a^|e|, error for a = 0; for every odd prime p < R: fp_inv_monty (Kaliski "
             "phase 1 terminates within 2m iterations with k <= 2m, reduction of x1 below p, phase 2 in the Montgomery domain), fp_inv_binar, "
             "fp_inv_exgcd, fp_inv_basic, fp_inv_lower return x in [0,p) with a*x = 1 for a != 0 and report a = 0; fp_inv_sim for every list "
             "length >= 1; fp_smb_basic / fp_smbm_low = legendreSym (Mathlib); fp_srt (p = 3 mod 4 and constant-time Tonelli-Shanks for every "
-            "2-adicity): flag = 1 iff the operand is a square, and then c*c = a, c < p; fp_is_sqr.  Class C (compared with the Z/pZ "
+            "2-adicity): flag = 1 iff the operand is a square, and then c*c = a, c < p; fp_is_sqr; fp_crt on its three one-exponentiation branches (p = 2 mod 3, 4 mod 9, 7 mod 9).  Class C (compared with the Z/pZ "
             "specification on every run, not modelled): fp_inv_divst, fp_inv_jmpds, fp_smb_binar, fp_smb_divst, fp_smb_jmpds (hence the symbol "
-            "inside fp_is_sqr / the Tonelli-Shanks flag is modelled by Euler's criterion), fp_crt / fp_is_cub, the *_dig small-constant forms.  "
+            "inside fp_is_sqr / the Tonelli-Shanks flag is modelled by Euler's criterion), the general branch of fp_crt and fp_is_cub, the *_dig small-constant forms.  "
             "Tie: ~8800 operation lines per run on NIST/BSI/SECG/SM2/BN/SM9 256-bit primes: structured Montgomery digits, all variants by name, "
             "aliasing, raw digit-level calls, decoder bounds, structured exponents / inversion operands / list lengths selecting every branch "
             "of every model (branch histogram in the evidence); six mutations of the modelled C functions in a scratch worktree were all "
